@@ -41,7 +41,7 @@ PROPS = {
         R("rand", "64", "eqops", 160, 60), R("rand", "32", "eqops", 160, 60), R("rand", "typed", "typedhash", 80, 40)]),
     "C09": dict(tags=["C09"], runs=[
         R("rand", "64", "eqops", 160, 60), R("rand", "32", "eqops", 160, 60), R("det", "64", "eqops", 60, 60),
-        R("rand", "typed", "typedops", 60, 40)]),
+        R("rand", "typed", "typedops", 60, 40), R("rand", "64", "inline", 1, 1), R("rand", "32", "inline", 1, 1)]),
     "C10": dict(tags=["C10"], runs=[
         R("rand", "64", "inline", 1, 1), R("rand", "32", "inline", 1, 1), R("rand", "typed", "typedinline", 1, 1)]),
     "C11": dict(tags=["C11"], runs=[
